@@ -588,7 +588,7 @@ func (r *Ref) forStmt(s *Stmt) (int, interface{}, int) {
 			r.cur.set(s.Key, i)
 		}
 		r.cur.set(s.Val, el)
-		sig, _, st := r.block(s.Body)
+		sig, v, st := r.block(s.Body)
 		if st != stOK {
 			r.cur = saved
 			return sigNone, nil, st
@@ -597,7 +597,13 @@ func (r *Ref) forStmt(s *Stmt) (int, interface{}, int) {
 			break
 		}
 		if sig == sigReturn {
-			r.Skip = true // return inside a loop: emits per iteration at top level, unclear inside a function
+			if r.depth > 0 {
+				// C16: the first return reached is the value of the call and
+				// everything after it is skipped, the rest of the loop included
+				r.cur = saved
+				return sigReturn, v, stOK
+			}
+			r.Skip = true // outside a function the statements do not say what return in a loop body does
 			break
 		}
 	}
